@@ -3,6 +3,12 @@
 import json
 PROPS = [json.loads(l) for l in open('/verif/properties.jsonl')]
 CLAIMED = {
+ "C08": dict(
+    category="proof",
+    text="Coq theorems C08_block / C08_values prove, for every dimensionality and every bin shape dividing the array shape, that reading the array through the reshape to (m0,b0,m1,b1,...) and reducing over the odd axes gives for output j exactly the operation over the inputs at j*b+r (masked inputs excluded unless the operation ignores the mask); C08_plan is the acceptance / refusal / new-shape decision; C08_flat describes the block-major array handed to a propagation function. Proof rests on interleave_ravel + unravel_ravel (row-major index arithmetic, proved by induction/nia). Tied to /repo by a correspondence check (exact rational comparison of every output element, mask, unit, meta, identity for all-ones) plus an explicit-loop oracle.",
+    design_ref="DESIGN.md §5.8",
+    note="Trusted: Coq kernel + VM; Model/M_Rebin.v transcription; 'reduce' is a dependency model of numpy (masked) reductions incl. NaN behaviour, validated by the same correspondence run, not verified; rint model of np.rint; dask observed after compute().",
+    technique="Coq proof (row-major index arithmetic) over hand-written Gallina model + vm_compute correspondence check"),
  "C14": dict(
     category="proof",
     text="Coq theorems over an ARBITRARY inner WCS (record of functions on rational vectors): resampled = inner at p*f+o with unchanged attributes, shape*f = inner shape, round trip for all non-zero factors; reordered = conjugation by the two permutations with every per-axis attribute transported, argsort of any permutation is its inverse, round trip; compound = routing + concatenation, round trip when members round-trip and the mapping is onto, refusal of inconsistent world inputs on shared axes and of wrong-length parameters / non-permutations. Tied to /repo by a correspondence check over wrapper expressions (nested to depth 2) on an exact linear probe WCS, rank 0-2 inputs, plus a FITS-family direct oracle.",
